@@ -135,6 +135,7 @@ class Model:
         self.defs: Dict[str, Dict[str, Tuple[str, Any]]] = {}
         for m in self.mods.values():
             self.defs[m.name] = self._scan_defs(m)
+        self._desugar_getters()
         self.classes: Dict[str, Cls] = {}
         self.funcs: Dict[str, Fn] = {}
         for m in self.mods.values():
@@ -147,6 +148,45 @@ class Model:
         self.shared_default_slots: Dict[str, List[Tuple[str, str, int]]] = {}
         self._synthesise_accessors()
         self._check_reflection_inventory()
+
+    def _desugar_getters(self) -> None:
+        """operator.attrgetter("a.b") is `lambda o: o.a.b`, operator.itemgetter(k) is `lambda o: o[k]` (one argument each): the
+        parsed trees are rewritten at load, so that every analysis reads a sort key / a mapper in one spelling"""
+        for m in self.mods.values():
+            d = self.defs.get(m.name, {})
+
+            def is_op(name, want):
+                v = d.get(name)
+                return v is not None and v[0] == "import" and v[1] in (("operator", want), ("_operator", want))
+            mod_alias = {k for k, v in d.items() if v[0] == "importmod" and v[1] in ("operator", "_operator")}
+            if not (any(is_op(k, "attrgetter") or is_op(k, "itemgetter") for k in d) or mod_alias):
+                continue
+
+            class T(ast.NodeTransformer):
+                def visit_Call(self, n):
+                    n = self.generic_visit(n)
+                    f = n.func
+                    which = None
+                    if isinstance(f, ast.Name) and is_op(f.id, "attrgetter"):
+                        which = "attr"
+                    elif isinstance(f, ast.Name) and is_op(f.id, "itemgetter"):
+                        which = "item"
+                    elif isinstance(f, ast.Attribute) and isinstance(f.value, ast.Name) and f.value.id in mod_alias and f.attr in ("attrgetter", "itemgetter"):
+                        which = "attr" if f.attr == "attrgetter" else "item"
+                    if which is None or len(n.args) != 1 or n.keywords or not isinstance(n.args[0], ast.Constant):
+                        return n
+                    body = ast.Name(id="_o", ctx=ast.Load())
+                    if which == "attr":
+                        if not isinstance(n.args[0].value, str) or not all(p.isidentifier() for p in n.args[0].value.split(".")):
+                            return n
+                        for part in n.args[0].value.split("."):
+                            body = ast.Attribute(value=body, attr=part, ctx=ast.Load())
+                    else:
+                        body = ast.Subscript(value=body, slice=n.args[0], ctx=ast.Load())
+                    lam = ast.Lambda(args=ast.arguments(posonlyargs=[], args=[ast.arg(arg="_o")], kwonlyargs=[], kw_defaults=[], defaults=[]),
+                                     body=body)
+                    return ast.fix_missing_locations(ast.copy_location(lam, n))
+            m.tree = T().visit(m.tree)
 
     # ------------------------------------------------------------------ defs
     def _scan_defs(self, m: Mod) -> Dict[str, Tuple[str, Any]]:
